@@ -101,6 +101,8 @@ def check_simulator(env, label, circ, maxp):
         sim = emulator.Simulator(circ)
     m = circ.input_modes
     name = "lightworks/emulator/simulation/simulator.py:Simulator.simulate#xsym"
+    if label == "U2":
+        maxp = max(maxp, 4)        # two modes holding the same occupation >= 2 (|2,2>): the factorial normalisation counts every mode
     for k in range(0, (maxp if m else 0) + 1):
         ins_ = fock.fock(m, k)
         res = sim.simulate([lw.State(s) for s in ins_])
